@@ -1,6 +1,7 @@
 from __future__ import annotations
 from typing import Any
-from sympy import Expr, Symbol as SymSymbol, srepr
+from sympy import Expr, Symbol as SymSymbol, srepr, sympify
+from sympy.physics.units import Quantity as SymQuantity
 from ..dimensions import Dimension, collect_expression_and_dimension
 
 
@@ -38,8 +39,10 @@ class Symbolic(SymSymbol):  # type: ignore[misc]  # pylint: disable=too-many-anc
         **assumptions: Any,
     ) -> Symbolic:
         cls_name = cls.__name__
-        # NOTE: `str` shows display names, which different symbols may share
-        inner = srepr(expr)
+        # NOTE: `str` shows display names, which different symbols may share, and the rounded
+        # values of quantities; quantities are therefore identified by their names here
+        expr_ = sympify(expr)
+        inner = srepr(expr_.xreplace({q: q.name for q in expr_.atoms(SymQuantity)}))
         display_name = f"{cls_name}({inner})"
 
         obj = super().__new__(cls, display_name, **assumptions)
